@@ -57,23 +57,23 @@ type chActor struct {
 }
 
 type chWorld struct {
-	ch       *tchannel.Channel
-	ctl      *c07Ctl
-	conns    []*chConn
-	byID     map[uint32]*chConn
-	known    []int
-	ops      []int64
-	obs      []int64
-	nops     int64
-	nthreads int
-	actors   []*chActor
-	pre      []net.Conn
-	chStates []int
-	verdicts []string
-	infeasible bool
+	ch          *tchannel.Channel
+	ctl         *c07Ctl
+	conns       []*chConn
+	byID        map[uint32]*chConn
+	known       []int
+	ops         []int64
+	obs         []int64
+	nops        int64
+	nthreads    int
+	actors      []*chActor
+	pre         []net.Conn
+	chStates    []int
+	verdicts    []string
+	infeasible  bool
 	closeIssued bool
-	lateSeen map[uint32]bool
-	outc     []func() int64 // expected outcome of every model thread, in thread order
+	lateSeen    map[uint32]bool
+	outc        []func() int64 // expected outcome of every model thread, in thread order
 }
 
 func (w *chWorld) fail(v string) { w.verdicts = append(w.verdicts, v) }
